@@ -109,6 +109,11 @@ def run(ctx):
         for k, g, g2 in zip(names, got, again):
             eq(ctx, "R1", f"{k}: a second call with the same weights and density returns the same value [{label}]", g2, g, csite,
                nonzero=[rho * M])
+        # the direct calculation agrees at density 0 as well, also when the summed formula carries a density of its own
+        total_d = I.call(I.global_name("formulas", "formula"), [total], {"density": sp.Symbol("rho_own", positive=True)})
+        d0 = I.call(I.global_name("nsf", "neutron_sld"), [total_d], {"density": sp.Integer(0), "wavelength": lam})
+        ctx.check(tuple(d0) == (0, 0, 0), "R1", f"neutron_sld(sum, density=0) gives zeros like the calculator [{label}]",
+                  f"returned {_s(d0)}", fsite(ctx, "nsf.neutron_sld"))
         # guard: zero density and zero total weight give zeros
         z = I.call(calc, [Vec(ws)], {"density": sp.Integer(0)})
         ctx.check(tuple(z) == (0, 0, 0), "R1", f"zero density gives zeros [{label}]", f"returned {_s(z)}", csite)
